@@ -8,6 +8,9 @@
                               found under the type's member names — hence
   * `extra_field_ignored`   : extra message fields do not change the digest, and
   * `key_order_irrelevant`  : neither does the order of the JSON object keys.
+  * `type_order_irrelevant` : the `types` object is a map: documents whose type definitions are the same up to order have
+                              the same digest (all six mutually recursive encoders depend on the type set only through
+                              lookups and its size: `encoders_same`).
   PARTIAL: equality with Spec.Eip712.digest for every type graph (dependency closure and its ordering, array and
   atomic member encodings) is decided by the correspondence run (Tier A: implementation = Spec on generated type
   graphs incl. cycles, shared and unreferenced types), not proved; signature shape / recovery are C05's theorems.
@@ -180,6 +183,133 @@ theorem digest_length (fuel : Nat) (p : TypedData) (d : Bytes) (h : encodeTypedD
   obtain ⟨dh, _, h2⟩ := digest_shape fuel p d h
   rcases h2 with ⟨_, sh, _, hd⟩ | ⟨_, hd⟩ <;> rw [hd] <;> exact Prim.keccak256_length _
 
+/-! ### the order of the type definitions is irrelevant -/
+
+
+/-- two type sets that answer every lookup alike and have the same number of definitions -/
+def SameSet (A B : TypeSet) : Prop := (∀ n, tsLookup A n = tsLookup B n) ∧ A.length = B.length
+
+theorem addNested_same (A B : TypeSet) (h : SameSet A B) : ∀ (fuel : Nat) (tn : String) (acc : TypeSet),
+    addNestedTypes fuel tn A acc = addNestedTypes fuel tn B acc := by
+  intro fuel
+  induction fuel with
+  | zero => intro tn acc; simp [addNestedTypes]
+  | succ f ih =>
+    intro tn acc
+    simp only [addNestedTypes, h.1, ih]
+
+theorem encodeType_same (A B : TypeSet) (h : SameSet A B) (tn : String) : encodeType tn A = encodeType tn B := by
+  unfold encodeType
+  rw [h.1 tn, h.2, addNested_same A B h]
+
+/-- all six mutually recursive encoders at once, by induction on the fuel -/
+theorem encoders_same (A B : TypeSet) (h : SameSet A B) : ∀ fuel : Nat,
+    (∀ tn v, encodeElement fuel tn v A = encodeElement fuel tn v B) ∧
+    (∀ tn v, hashStruct fuel tn v A = hashStruct fuel tn v B) ∧
+    (∀ tn v, Model.Eip712.encodeData fuel tn v A = Model.Eip712.encodeData fuel tn v B) ∧
+    (∀ ms ks vs, encodeMembers fuel ms ks vs A = encodeMembers fuel ms ks vs B) ∧
+    (∀ tn v, hashArray fuel tn A v = hashArray fuel tn B v) ∧
+    (∀ t xs, hashElems fuel t xs A = hashElems fuel t xs B) := by
+  intro fuel
+  induction fuel with
+  | zero =>
+    refine ⟨?_, ?_, ?_, ?_, ?_, ?_⟩ <;> intros <;> simp [encodeElement, hashStruct, Model.Eip712.encodeData, encodeMembers, hashArray, hashElems]
+  | succ f ih =>
+    obtain ⟨iE, iS, iD, iM, iA, iH⟩ := ih
+    refine ⟨?_, ?_, ?_, ?_, ?_, ?_⟩
+    · intro tn v
+      rw [encodeElement, encodeElement, iA, iS, h.1 tn]
+    · intro tn v
+      rw [hashStruct, hashStruct, iD]
+    · intro tn v
+      rw [Model.Eip712.encodeData, Model.Eip712.encodeData, encodeType_same A B h tn]
+      simp only [iM]
+    · intro ms ks vs
+      cases ms with
+      | nil => simp [encodeMembers]
+      | cons m ms => rw [encodeMembers, encodeMembers, iE, iM]
+    · intro tn v
+      rw [hashArray, hashArray]
+      simp only [iH]
+    · intro t xs
+      cases xs with
+      | nil => simp [hashElems]
+      | cons x xs => rw [hashElems, hashElems, iE, iH]
+
+
+/-- with distinct names, a lookup does not depend on the order of the definitions -/
+theorem tsLookup_perm (A B : TypeSet) (hp : A.Perm B) (hnd : (A.map (·.1)).Nodup) (n : String) :
+    tsLookup A n = tsLookup B n := by
+  unfold tsLookup
+  have hnd2 : (B.map (·.1)).Nodup := (hp.map _).nodup_iff.mp hnd
+  have key : ∀ (l : TypeSet), (l.map (·.1)).Nodup → ∀ p, p ∈ l → p.1 = n → l.find? (·.1 == n) = some p := by
+    intro l hl p hp hpn
+    induction l with
+    | nil => cases hp
+    | cons q r ih =>
+      simp only [List.map_cons, List.nodup_cons] at hl
+      rw [List.find?_cons]
+      rcases List.mem_cons.mp hp with rfl | hmem
+      · simp [hpn]
+      · have hq : (q.1 == n) = false := by
+          have : q.1 ≠ n := by
+            intro e
+            apply hl.1
+            rw [e, ← hpn]
+            exact List.mem_map.mpr ⟨p, hmem, rfl⟩
+          simpa using this
+        rw [hq]
+        exact ih hl.2 hmem
+  cases h1 : A.find? (·.1 == n) with
+  | some p =>
+    have hp1 : p ∈ A := List.mem_of_find?_eq_some h1
+    have hpn : p.1 = n := by simpa using List.find?_some h1
+    rw [key _ hnd2 p (hp.mem_iff.mp hp1) hpn]
+  | none =>
+    cases h2 : B.find? (·.1 == n) with
+    | none => rfl
+    | some p =>
+      have hp2 : p ∈ B := List.mem_of_find?_eq_some h2
+      have hpn : p.1 = n := by simpa using List.find?_some h2
+      have := key _ hnd p (hp.mem_iff.mpr hp2) hpn
+      rw [h1] at this
+      cases this
+
+theorem sameSet_of_perm (A B : TypeSet) (hp : A.Perm B) (hnd : (A.map (·.1)).Nodup) : SameSet A B :=
+  ⟨tsLookup_perm A B hp hnd, hp.length_eq⟩
+
+/-- inserting a definition keeps the names distinct and commutes with reordering -/
+theorem tsInsert_perm (A B : TypeSet) (hp : A.Perm B) (hnd : (A.map (·.1)).Nodup) (n : String) (t : TypeDef) :
+    (tsInsert A n t).Perm (tsInsert B n t) ∧ ((tsInsert A n t).map (·.1)).Nodup := by
+  unfold tsInsert
+  refine ⟨List.Perm.cons _ (hp.filter _), ?_⟩
+  simp only [List.map_cons, List.nodup_cons]
+  constructor
+  · intro hmem
+    obtain ⟨q, hq, hqn⟩ := List.mem_map.mp hmem
+    have := (List.mem_filter.mp hq).2
+    simp [hqn] at this
+  · exact (List.Sublist.map _ List.filter_sublist).nodup hnd
+
+/-- **The order of the type definitions is irrelevant**: a `types` object is a map; two documents whose type
+    definitions are the same up to order (names distinct, as in any JSON object that survives decoding into a Go map)
+    have the same digest — or fail alike. -/
+theorem type_order_irrelevant (fuel : Nat) (p : TypedData) (A B : TypeSet) (hp : A.Perm B)
+    (hnd : (A.map (·.1)).Nodup) :
+    encodeTypedDataV4 fuel { p with types := some A } = encodeTypedDataV4 fuel { p with types := some B } := by
+  unfold encodeTypedDataV4
+  simp only [Option.getD_some]
+  rw [← tsLookup_perm A B hp hnd EIP712Domain]
+  have hS : SameSet (if (tsLookup A EIP712Domain).isSome then A else tsInsert A EIP712Domain (some []))
+      (if (tsLookup A EIP712Domain).isSome then B else tsInsert B EIP712Domain (some [])) := by
+    split
+    · exact sameSet_of_perm A B hp hnd
+    · have := tsInsert_perm A B hp hnd EIP712Domain (some [])
+      exact sameSet_of_perm _ _ this.1 this.2
+  have hH := (encoders_same _ _ hS fuel).2.1
+  simp only [hH]
+
+
 /-! ### non-vacuity: a concrete document on which the theorems' hypotheses hold (evaluated by the kernel) -/
 
 def exDoc : TypedData :=
@@ -198,5 +328,18 @@ example : (match encodeTypedDataV4 8 exDoc with | .ok d => d.length == 32 | _ =>
 example : (match encodeTypedDataV4 8 { exDoc with message := some (.obj ["n", "zz", "to"]
         [.num "5" (.int 5) (.int 5), .bool true, .str "0x0000000000000000000000000000000000000001" .fail .fail]) } with
     | .ok d => d.length == 32 | _ => false) = true := by decide +kernel
+
+/-- `exDoc`'s type definitions -/
+def exTypes : TypeSet :=
+  [("EIP712Domain", some [some { name := "name", type := "string" }]),
+   ("Mail", some [some { name := "to", type := "address" }, some { name := "n", type := "uint256" }])]
+
+/-- non-vacuity of `type_order_irrelevant`: the two definitions in the other order are a permutation with distinct
+    names -/
+example : exTypes.Perm
+      [("Mail", some [some { name := "to", type := "address" }, some { name := "n", type := "uint256" }]),
+       ("EIP712Domain", some [some { name := "name", type := "string" }])] ∧
+    (exTypes.map fun (d : String × TypeDef) => d.1).Nodup :=
+  ⟨List.Perm.swap _ _ _, by decide⟩
 
 end FFS.Props.C04
